@@ -36,7 +36,8 @@ TIE_EPS = 1e-7
 RULE = ("a case is (image, variant 2d/3d/4d/bscale, dtype, grid, box, requested stripes, mask, output path "
         "in-process/files/compressed/CLI) run through the real BANE.filter_image; non-trivial = the image is not "
         "constant, has >= 2 grid intervals in each direction, and at least one of: >= 2 realised stripes, a blank "
-        "block, a DC offset >= 100 sigma, a gradient, a cube index > 0, BSCALE != 1; distinct by the full "
+        "block, a DC offset >= 100 sigma, a gradient, bright sources, a tiny/huge unit (x 2**-50..2**40), a cube index > 0, "
+        "BSCALE != 1; distinct by the full "
         "configuration and the image hash")
 ASSUMPTIONS = [
     "IEEE rounding is not modelled: theorems are over the reals; the Float run of the same definitions agrees with "
@@ -348,7 +349,7 @@ def gen_image(ctx, R, C):
     g = np_rng(ctx)
     feat = {}
     kind = rng.choice(['noise', 'noise', 'noise', 'offset', 'offset', 'gradient', 'blanks', 'blanks', 'mixed', 'mixed',
-                       'const', 'sparse'])
+                       'const', 'sparse', 'graded', 'graded'])
     img = lattice_noise(g, R, C)
     if kind in ('offset', 'mixed') or (kind == 'blanks' and rng.random() < 0.3):
         off = rng.choice([1000.0, -250.5, 4096.0, 100.0, -8000.25])
@@ -369,6 +370,9 @@ def gen_image(ctx, R, C):
         for _ in range(rng.randint(1, 6)):
             img[rng.randrange(R), rng.randrange(C)] = rng.choice([50.0, 200.0, -75.0])
         feat['sources'] = True
+    if kind == 'graded':
+        img = graded_sources(ctx, g, R, C)
+        feat['sources'] = True
     if kind in ('blanks', 'mixed') or rng.random() < 0.15:
         nb = 0
         for _ in range(rng.randint(1, 3)):
@@ -381,7 +385,23 @@ def gen_image(ctx, R, C):
         if rng.random() < 0.2:
             img[rng.randrange(R), :] = np.nan
         feat['blanks'] = int(np.sum(~np.isfinite(img)))
+    if kind != 'const' and rng.random() < (0.5 if kind == 'graded' else 0.08):
+        # the same image in a very small / very large unit (exact: power of two)
+        f = rng.choice([2.0 ** -40, 2.0 ** -50, 2.0 ** -30, 2.0 ** 30, 2.0 ** 40])
+        if scale_of(img) < 2.0 ** 17:
+            img = img * f
+            feat['dynamic'] = f
     return img, feat
+
+
+def graded_sources(ctx, g, R, C, density=10):
+    """unit lattice noise + sources of graded brightness (200 … 5 sigma), about one per `density` pixels: every
+    box holds several, so sigma clipping needs several rounds (each round uncovers the next fainter ones)"""
+    rng = ctx.rng
+    img = lattice_noise(g, R, C)
+    for _ in range(max(3, R * C // density)):
+        img[rng.randrange(R), rng.randrange(C)] += rng.choice([200.0, 60.0, 20.0, 8.0, 5.0, -40.0, 1000.0])
+    return img
 
 
 def gen_config(ctx, small=False):
@@ -428,8 +448,10 @@ def parse_model(line, R, C):
     return vals[:R * C].reshape(R, C), vals[R * C:].reshape(R, C)
 
 
-def f32_close(a, b, scale):
-    """elementwise comparison in the float32 class; NaN patterns must agree; returns (ok, index, detail)"""
+def f32_close(a, b, scale, rel=2e-6, absrel=1e-9):
+    """elementwise comparison in the float32 class: |a-b| <= rel*max(|a|,|b|) + absrel*scale (scale = largest
+    |finite input pixel| of the image the maps belong to, so tiny- and huge-valued images are judged relative to
+    their own unit); NaN patterns must agree; returns (ok, index, detail)"""
     a = np.asarray(a, dtype=np.float64)
     b = np.asarray(b, dtype=np.float64)
     if a.shape != b.shape:
@@ -438,7 +460,7 @@ def f32_close(a, b, scale):
     if not np.array_equal(na, nb):
         idx = tuple(int(i) for i in np.argwhere(na != nb)[0])
         return False, idx, f"blank pattern differs at {idx}: {a[idx]} vs {b[idx]}"
-    ok = np.abs(a - b) <= 2e-6 * np.maximum(np.abs(a), np.abs(b)) + 1e-9 * scale + 1e-30
+    ok = np.abs(a - b) <= rel * np.maximum(np.abs(a), np.abs(b)) + absrel * scale
     ok |= na
     if ok.all():
         return True, None, ''
@@ -448,7 +470,8 @@ def f32_close(a, b, scale):
 
 def scale_of(img):
     f = img[np.isfinite(img)]
-    return float(np.max(np.abs(f))) if f.size else 1.0
+    m = float(np.max(np.abs(f))) if f.size else 0.0
+    return m if m > 0 else 1.0
 
 
 def case_of(job, extra=None):
@@ -550,7 +573,7 @@ def spec_single(ctx, job, res):
     # range
     if fin.any():
         lo, hi = float(img[fin].min()), float(img[fin].max())
-        slack = 2e-6 * max(abs(lo), abs(hi)) + 1e-9 * scale + 1e-30
+        slack = 2e-6 * max(abs(lo), abs(hi)) + 1e-9 * scale
         fb = bkg[~nb]
         if fb.size and (fb.min() < lo - slack or fb.max() > hi + slack):
             ctx.fail('spec', case_of(job), f"background [{fb.min()}, {fb.max()}] leaves the range of the finite input pixels [{lo}, {hi}]",
@@ -607,7 +630,8 @@ def nontrivial_key(job, feat):
     if R <= job['grid'][0] or C <= job['grid'][1]:
         return None
     interesting = (len(job.get('_stripes', job['predicted'])) >= 2 or feat.get('blanks') or abs(feat.get('offset', 0)) >= 100
-                   or feat.get('gradient') or job['cube_index'] > 0 or job['bscale'] != 1.0)
+                   or feat.get('gradient') or job['cube_index'] > 0 or job['bscale'] != 1.0 or feat.get('dynamic')
+                   or feat.get('sources'))
     if not interesting:
         return None
     import hashlib
@@ -667,7 +691,19 @@ def correspond(ctx, jobs, results, feats):
 # ---------- metamorphic relations on the real code --------------------------------------------------
 
 SHIFTS = [1000.0, -250.5, 16384.0, 64.0]
+BIG_SHIFTS = [2.0 ** 20, -2.0 ** 24, 3.0 * 2.0 ** 18]       # used with float64 files only
 SCALES = [2.0, -1.0, -0.75, 3.0, 0.5, -4.0]
+# exact powers of two over a wide dynamic range: scaling by 2**n commutes with every rounding of the float64
+# pipeline (sums, means, squares, sqrt of an even power, comparisons, interpolation weights) and with the float32
+# cast (no under/overflow: lattice 2**-4, |values| < 2**17, so 2**-60 .. 2**40 stays normal), hence the maps of k*I
+# must equal k*bkg(I), |k|*rms(I) BIT-EXACTLY.  Tolerance used: 1 float32 ulp (1.2e-7 relative), no absolute term,
+# and no tie excuse (a tie is resolved identically in both runs).
+POW2_SCALES = [2.0 ** -40, 2.0 ** -20, 2.0 ** 20, -2.0 ** -30, 2.0 ** 40, -2.0 ** -60, 2.0 ** -50, -2.0 ** 30]
+
+
+def is_pow2(k):
+    m, _ = math.frexp(abs(k))
+    return m == 0.5
 
 
 def metamorphic(ctx, base_jobs, results):
@@ -679,11 +715,21 @@ def metamorphic(ctx, base_jobs, results):
         if not res or res.get('status') != 'ok' or 'bkg' not in res:
             continue
         img = job['_img']
-        if scale_of(img) > 40000:
-            continue
-        c = rng.choice(SHIFTS)
-        k = rng.choice(SCALES)
-        for kind, par, im2 in (('shift', c, img + c), ('scale', k, img * k)):
+        sc0 = scale_of(img)
+        todo = []
+        if 2.0 ** -10 < sc0 <= 40000:
+            c = rng.choice(SHIFTS + (BIG_SHIFTS if job['dtype'] == 'f8' else []))
+            todo.append(('shift', c, img + c))
+            k = rng.choice(SCALES)
+            todo.append(('scale', k, img * k))
+        if 2.0 ** -10 < sc0 < 2.0 ** 17:
+            k2 = rng.choice(POW2_SCALES)
+            todo.append(('scale', k2, img * k2))
+        elif sc0 <= 2.0 ** -10 or sc0 >= 2.0 ** 17:
+            # an already tiny / huge image: bring it back to ordinary units
+            e = round(math.log2(sc0)) - 6
+            todo.append(('scale', 2.0 ** -e, img * 2.0 ** -e))
+        for kind, par, im2 in todo:
             j2 = mkjob(ctx, im2, job['grid'], job['box'], nslice=job['nslice'], mask=job['mask'], variant=job['variant'],
                        dtype=job['dtype'], via='mem', cube_index=job['cube_index'], n3=job['n3'], bscale=job['bscale'],
                        tag=f"{kind}:{par}")
@@ -701,18 +747,28 @@ def metamorphic(ctx, base_jobs, results):
             continue
         b1, r1 = maps_of(job, results[job['id']])
         b2, rr2 = maps_of(j2, r2)
-        scale = max(scale_of(job['_img']), scale_of(j2['_img']))
+        exact = False
         if kind == 'shift':
+            scale = max(scale_of(job['_img']), scale_of(j2['_img']))
             wb, wr = b1 + par, r1
             law = f"adding {par} must add {par} to the background and leave the noise unchanged"
+            okb, ib, db = f32_close(b2, wb, scale)
+            okr, ir, dr = f32_close(rr2, wr, scale)
         else:
+            scale = scale_of(j2['_img'])          # judged in the units of the transformed image
             wb, wr = b1 * par, r1 * abs(par)
             law = f"multiplying by {par} must scale the background by {par} and the noise by {abs(par)}"
-        okb, ib, db = f32_close(b2, wb, scale)
-        okr, ir, dr = f32_close(rr2, wr, scale)
+            exact = is_pow2(par)
+            if exact:
+                ctx.count('metamorphic-scale-pow2-exact')
+                okb, ib, db = f32_close(b2, wb, scale, rel=1.2e-7, absrel=0.0)
+                okr, ir, dr = f32_close(rr2, wr, scale, rel=1.2e-7, absrel=0.0)
+            else:
+                okb, ib, db = f32_close(b2, wb, scale)
+                okr, ir, dr = f32_close(rr2, wr, scale)
         if okb and okr:
             continue
-        bad.append((job, kind, par, j2, law, ('bkg: ' + db) if not okb else ('noise: ' + dr)))
+        bad.append((job, kind, par, j2, law, ('bkg: ' + db) if not okb else ('noise: ' + dr), exact))
     if bad:
         # rounding ties in the clipping of the base image excuse a difference
         margins = [1.0] * len(bad)
@@ -726,8 +782,8 @@ def metamorphic(ctx, base_jobs, results):
                 margins = [min(a, b) for a, b in zip(ms[:len(bad)], ms[len(bad):])]
             except Exception:
                 pass
-        for (job, kind, par, j2, law, det), mg in zip(bad, margins):
-            if mg < TIE_EPS:
+        for (job, kind, par, j2, law, det, exact), mg in zip(bad, margins):
+            if mg < TIE_EPS and not exact:
                 ctx.count('tie-skipped')
                 continue
             ctx.fail('spec', case_of(job, dict(relation=kind, par=par)),
@@ -736,6 +792,15 @@ def metamorphic(ctx, base_jobs, results):
 
 
 # ---------- sigmaclip alone ---------------------------------------------------------------------------
+
+def rel_close(a, b, rel, abs_):
+    """like common.close but without its floor of 1.0 on the magnitude (tiny-valued lists)"""
+    if a != a and b != b:
+        return True
+    if a != a or b != b:
+        return False
+    return abs(a - b) <= max(abs_, rel * max(abs(a), abs(b)))
+
 
 def clip_cases(ctx, n):
     from AegeanTools import BANE
@@ -748,6 +813,25 @@ def clip_cases(ctx, n):
         for _ in range(rng.choice([0, 0, 1, 3])):
             a[rng.randrange(m)] = rng.choice([50.0, -80.0, float('nan'), float('inf')])
         lists.append(a.tolist())
+    for _ in range(max(12, n // 4)):
+        m = rng.choice([16, 40, 100, 400])
+        a = np.round(g.normal(0, 1, m) * LAT) / LAT
+        for _ in range(max(2, m // 8)):
+            a[rng.randrange(m)] += rng.choice([200.0, 60.0, 20.0, 8.0, 5.0, -40.0, 1000.0])
+        # Spec on the implementation alone: power-of-two rescaling is exact, so the result must scale bit-exactly
+        import warnings
+        with warnings.catch_warnings():
+            warnings.simplefilter('ignore')
+            m0, s0 = BANE.sigmaclip(a, 3, 3)
+            for k in (2.0 ** -40, -2.0 ** -30, 2.0 ** 30):
+                mk, sk = BANE.sigmaclip(a * k, 3, 3)
+                ctx.count('sigmaclip-pow2-scale')
+                if not (mk == m0 * k and sk == s0 * abs(k)):
+                    ctx.fail('spec', dict(op='sigmaclip', arr=[repr(v) for v in a.tolist()], par=k),
+                             f"sigmaclip(k*x) = {(mk, sk)} but k*mean, |k|*std of sigmaclip(x) = {(m0 * k, s0 * abs(k))} for k = {k} "
+                             "(an exact power of two: must agree bit for bit)", dict(what='sigmaclip-scale-law'))
+                    break
+        lists.append((a * rng.choice([1.0, 2.0 ** -40, 2.0 ** -50, 2.0 ** -20, 2.0 ** 30, -2.0 ** -30])).tolist())
     lines = ["clip 10 " + " ".join(common.f2h(v) if math.isfinite(v) else 'n' for v in l) for l in lists]
     outs = ctx.driver.batch(lines)
     for l, o in zip(lists, outs):
@@ -764,8 +848,8 @@ def clip_cases(ctx, n):
                 ctx.fail('corr', dict(op='sigmaclip', arr=[repr(v) for v in l]), f"model none, implementation {(m, s)}", dict(what='sigmaclip'))
             continue
         mm, ms = [common.h2f(t) for t in o.split()]
-        sc = max([abs(v) for v in fin] + [1.0])
-        if not (common.close(m, mm, 1e-12, 1e-12 * sc) and common.close(s, ms, 1e-9, 1e-12 * sc)):
+        sc = max([abs(v) for v in fin] + [1e-300])
+        if not (rel_close(m, mm, 1e-12, 1e-12 * sc) and rel_close(s, ms, 1e-9, 1e-12 * sc)):
             # tie?
             if len(fin) <= 12:
                 ctx.count('tie-skipped')
@@ -838,6 +922,17 @@ def corpus_jobs(ctx):
     # exact clipping tie: nine 0 and a 1 (x = m + 3 s exactly over the reals)
     img = np.zeros((5, 5)); img[1, 1] = 1.0
     jobs.append(mkjob(ctx, img, (4, 4), (4, 4), tag='tie')); feats.append({})
+    # graded sources (clipping needs several rounds), in ordinary, tiny and huge units, 1 and 2 stripes;
+    # the metamorphic pass (meta_fraction=1 for the corpus) adds power-of-two rescalings of each
+    class _C:      # fixed-seed stand-in for ctx in graded_sources
+        import random as _r
+        rng = _r.Random(606)
+    src = graded_sources(_C, g, 24, 20, density=8)
+    for f, tag in ((1.0, 'sources'), (2.0 ** -40, 'sources x 2**-40 (tiny unit)'), (2.0 ** 40, 'sources x 2**40 (huge unit)'),
+                   (-2.0 ** -30, 'sources x -2**-30')):
+        for ns in (1, 2):
+            jobs.append(mkjob(ctx, src * f, (4, 4), (8, 10), nslice=ns, dtype='f4' if ns == 1 else 'f8', tag=tag))
+            feats.append(dict(sources=True, dynamic=f))
     cdir = os.path.join(common.VERIF, 'corpus', 'C06')
     if os.path.isdir(cdir):
         for fn in sorted(os.listdir(cdir)):
@@ -950,7 +1045,26 @@ def replay(ctx, rec):
     common.use_repo()
     c = rec['case']
     if c.get('op') == 'sigmaclip':
-        clip_cases(ctx, 0)
+        from AegeanTools import BANE
+        import warnings
+        a = np.array([float(v) for v in c['arr']], dtype=np.float64)
+        ctx.case(dict(op='sigmaclip', n=len(a)))
+        with warnings.catch_warnings():
+            warnings.simplefilter('ignore')
+            m0, s0 = BANE.sigmaclip(a, 3, 3)
+            if 'par' in c:
+                k = c['par']
+                mk, sk = BANE.sigmaclip(a * k, 3, 3)
+                if not (mk == m0 * k and sk == s0 * abs(k)):
+                    ctx.fail('spec', c, f"sigmaclip(k*x) = {(mk, sk)} but k*mean, |k|*std of sigmaclip(x) = {(m0 * k, s0 * abs(k))}, k = {k}",
+                             dict(what='sigmaclip-scale-law'))
+                return
+        o = ctx.driver.batch(["clip 10 " + " ".join(common.f2h(v) if math.isfinite(v) else 'n' for v in a.tolist())])[0]
+        if o != 'none':
+            mm, ms = [common.h2f(t) for t in o.split()]
+            sc = max([abs(v) for v in a.tolist() if math.isfinite(v)] + [1e-300])
+            if not (rel_close(m0, mm, 1e-12, 1e-12 * sc) and rel_close(s0, ms, 1e-9, 1e-12 * sc)):
+                ctx.fail('corr', c, f"implementation {(m0, s0)} vs model {(mm, ms)}", dict(what='sigmaclip'))
         return
     job = job_from_case(ctx, c)
     results = evaluate(ctx, [job], [{}], with_model=ctx.driver_ok, meta_fraction=0.0)
@@ -966,9 +1080,14 @@ def replay(ctx, rec):
             b1, q1 = maps_of(job, r1)
             b2, q2 = maps_of(j2, r2)
             wb, wr = (b1 + par, q1) if c['relation'] == 'shift' else (b1 * par, q1 * abs(par))
-            scale = max(scale_of(img), scale_of(im2))
-            okb, _, db = f32_close(b2, wb, scale)
-            okr, _, dr = f32_close(q2, wr, scale)
+            if c['relation'] == 'shift':
+                tol = dict()
+                scale = max(scale_of(img), scale_of(im2))
+            else:
+                tol = dict(rel=1.2e-7, absrel=0.0) if is_pow2(par) else dict()
+                scale = scale_of(im2)
+            okb, _, db = f32_close(b2, wb, scale, **tol)
+            okr, _, dr = f32_close(q2, wr, scale, **tol)
             if not (okb and okr):
                 ctx.fail('spec', c, f"{c['relation']} by {par}: " + (('bkg: ' + db) if not okb else ('noise: ' + dr)),
                          sig(c['relation'] + '-law', job, relation=c['relation']))
